@@ -113,6 +113,16 @@ theorem c15_cancelled_start_unchanged (o : Bool) (fs : FileSet) (h : classify fs
     run (cancelledStartOps o fs) fs = fs ∧ cancelledStartOps o fs <+: startupOps o fs :=
   ⟨cancelledStart_unchanged o fs h hd, cancelledStartOps_prefix o fs⟩
 
+/-- **C15 (the cache is an optimisation, whatever it contains).**  For every reachable state and every shape of the
+fraction's entry in `.frac-cache` - none, `null`, an object without the index size, a complete one - the loader loads
+the same and leaves the same files as without a cache: a damaged cache can neither stop the start-up nor hide a
+fraction.  (That `LoadFromDisk` fills the map with one `json.Unmarshal`, that `GetFracInfo` hands out the stored
+pointer - `nil` for a `null` entry - and that `NewSealed` trusts an entry only with `IndexOnDisk > 0` are extracted:
+`c15_x_retention_and_cache`.) -/
+theorem c15_cache_entry_irrelevant (c : Cfg) (r : Role) (fs : FileSet) (h : Reach c srcFacts orphanFatal r fs)
+    (e : CacheEntry) : startupWithCache e orphanFatal fs = startup orphanFatal fs :=
+  c15_cache_irrelevant c r fs h e.fastPath
+
 /-- **Why `c15_x_orphan_not_fatal` is needed (the defect found in /repo before the repair).**  With the loader as it
 was (`logger.Fatal` on an orphan) a crash between the two `mustOpenFile`s of `NewActive` - reachable from nothing -
 leaves a directory the store cannot start from; so does a crash inside `Active.Suicide`. -/
@@ -179,7 +189,10 @@ theorem c15_x_retention_and_cache :
       saveCacheCalls = ["os.CreateTemp", "tmp.Write", "os.Rename"] ∧
       -- a cache entry is trusted (`cached = true` in `startupCached`) only when it carries the index size; an entry
       -- without sizes (older format, zeroed) is ignored and the header is read from the index
-      newSealedFastPath = "info != nil && info.IndexOnDisk > 0" := by decide
+      newSealedFastPath = "info != nil && info.IndexOnDisk > 0" ∧
+      -- the cache file is decoded by one json.Unmarshal into the map (entries do not share anything) and GetFracInfo
+      -- returns the stored pointer (nil for a null entry, which NewSealed then ignores)
+      loadFromDiskDecode = ["json.Unmarshal(content, &fc.fracCache)"] ∧ getFracInfoReturn = ["el", "ok"] := by decide
 
 /-- `Active.Replay`: the cancellation branch of its loop returns at once; `truncateTail` is reached only after the loop
 ended on EOF -/
